@@ -4,6 +4,7 @@ CONSTANTS
   NUp = 1
   NDown = 1
   MaxFaults = 1
+  MaxDrops = 1
 SPECIFICATION GenSpec
 INVARIANTS TypeOK PrefixDelivered OnlyOwnSegments OneAcceptPerSession OneCurrent NeverDead
 CHECK_DEADLOCK FALSE
